@@ -1,13 +1,861 @@
-// Package c17 is the correspondence harness for property C17 (placeholder).
+// Package c17 is the correspondence harness for property C17: only well-formed, timely
+// registrations are activated, and the socket is private.
+//
+// Three kinds of cases:
+//
+//	index – api.CheckPluginIndex on one string (exported function, in process);
+//	chain – a real adaptation.Adaptation serving a real unix socket, and a list of scripted
+//	        plugin ends (plugend.go) connecting to it in order; afterwards every lifecycle
+//	        event is relayed once and each plugin end reports what it was sent;
+//	dir   – adaptation.Start under a given umask with part of the socket path missing, then
+//	        stat of every path component (one worker subprocess per case: umask is
+//	        process-global).
+//
+// Chains run in worker subprocesses as well, because the registration and request timeouts are
+// package-level settings (adaptation.SetPluginRegistrationTimeout / SetPluginRequestTimeout):
+// one worker per pair of timeouts. Workers are this same binary, re-executed as
+// `verifh C17 -tier worker:<kind> -replay <jobs> -out <dir>`.
 package c17
 
 import (
-	"errors"
+	"bufio"
+	"context"
+	"encoding/json"
+	"fmt"
+	"io"
+	"math/rand"
+	stdnet "net"
+	"os"
+	"os/exec"
+	"path/filepath"
+	"strings"
+	"sync"
+	"syscall"
+	"time"
+
+	"github.com/containerd/nri/pkg/adaptation"
+	"github.com/containerd/nri/pkg/api"
+	"github.com/sirupsen/logrus"
 
 	"verifh/internal/hx"
 	"verifh/internal/lineio"
 )
 
+// ---------------------------------------------------------------- case types
+
+type IndexIn struct {
+	Kind string `json:"kind"` // "index"
+	Idx  string `json:"idx"`
+}
+type IndexObs struct {
+	Res string `json:"res"` // ok | index-length | index-digits | other
+}
+
+type ChainIn struct {
+	Kind    string   `json:"kind"` // "chain"
+	RegToMs int      `json:"regtoms"`
+	ReqToMs int      `json:"reqtoms"`
+	Plugins []PlugIn `json:"plugins"`
+}
+type ChainObs struct {
+	Done     string    `json:"done"` // ok | blocked | harness:<why>
+	Plugins  []PlugObs `json:"plugins"`
+	RelayErr []string  `json:"relayerr"` // errors returned while relaying the events
+	Slow     bool      `json:"slow"`     // the machine stalled the process noticeably during the run
+	MaxLagMs int64     `json:"maxlagms"`
+	WallMs   int64     `json:"wallms"`
+}
+
+type DirIn struct {
+	Kind     string   `json:"kind"`     // "dir"
+	Umask    uint32   `json:"umask"`    // process umask while NRI starts
+	Existing []uint32 `json:"existing"` // modes of the path components that exist already, outermost first
+	Missing  int      `json:"missing"`  // number of further components that do not exist
+	Disabled bool     `json:"disabled"` // WithDisabledExternalConnections
+}
+type DirObs struct {
+	Start   string   `json:"start"`  // ok | error
+	Modes   []*int64 `json:"modes"`  // mode (12 permission bits) of every component afterwards; null = absent
+	Socket  bool     `json:"socket"` // the socket file exists
+	Connect string   `json:"connect"`
+	Euid    int      `json:"euid"`
+	Msg     string   `json:"msg"`
+}
+
+// ---------------------------------------------------------------- index
+
+func runIndex(in IndexIn) IndexObs {
+	err := api.CheckPluginIndex(in.Idx)
+	switch {
+	case err == nil:
+		return IndexObs{"ok"}
+	case strings.Contains(err.Error(), "must be 2 digits"):
+		return IndexObs{"index-length"}
+	case strings.Contains(err.Error(), "[0-9][0-9]"):
+		return IndexObs{"index-digits"}
+	}
+	return IndexObs{"other"}
+}
+
+// ---------------------------------------------------------------- chain
+
+func syncFn(ctx context.Context, cb adaptation.SyncCB) error {
+	_, err := cb(ctx, []*api.PodSandbox{{Id: "pod0", Name: "pod0"}}, []*api.Container{{Id: "ctr0", PodSandboxId: "pod0", Name: "ctr0"}})
+	return err
+}
+
+func updateFn(context.Context, []*api.ContainerUpdate) ([]*api.ContainerUpdate, error) {
+	return nil, nil
+}
+
+// lagMeter notices when the process as a whole is being held up (overloaded machine):
+// timing-dependent observations of such a run are not trustworthy.
+type lagMeter struct {
+	max  time.Duration
+	stop chan struct{}
+	done chan struct{}
+}
+
+func startLag() *lagMeter {
+	m := &lagMeter{stop: make(chan struct{}), done: make(chan struct{})}
+	go func() {
+		defer close(m.done)
+		const step = 5 * time.Millisecond
+		last := time.Now()
+		for {
+			select {
+			case <-m.stop:
+				return
+			case <-time.After(step):
+			}
+			now := time.Now()
+			if lag := now.Sub(last) - step; lag > m.max {
+				m.max = lag
+			}
+			last = now
+		}
+	}()
+	return m
+}
+func (m *lagMeter) finish() time.Duration { close(m.stop); <-m.done; return m.max }
+
+var sockSeq int
+var sockMu sync.Mutex
+
+func runChain(in ChainIn, scratch string) (obs ChainObs) {
+	t0 := time.Now()
+	obs = ChainObs{Done: "ok", Plugins: []PlugObs{}, RelayErr: []string{}}
+	regTo := time.Duration(in.RegToMs) * time.Millisecond
+	reqTo := time.Duration(in.ReqToMs) * time.Millisecond
+	sockMu.Lock()
+	sockSeq++
+	dir := filepath.Join(scratch, fmt.Sprintf("c%d", sockSeq))
+	sockMu.Unlock()
+	if err := os.MkdirAll(filepath.Join(dir, "plugins"), 0o755); err != nil {
+		obs.Done = "harness:" + err.Error()
+		return
+	}
+	sock := filepath.Join(dir, "n.sock")
+	if len(sock) > 100 {
+		obs.Done = "harness: socket path too long: " + sock
+		return
+	}
+	r, err := adaptation.New("verif", "0.0", syncFn, updateFn,
+		adaptation.WithSocketPath(sock),
+		adaptation.WithPluginPath(filepath.Join(dir, "plugins")),
+		adaptation.WithPluginConfigPath(filepath.Join(dir, "conf")))
+	if err != nil {
+		obs.Done = "harness:" + err.Error()
+		return
+	}
+	if err := r.Start(); err != nil {
+		obs.Done = "harness:" + err.Error()
+		return
+	}
+	lag := startLag()
+	quit := make(chan struct{})
+	var ends []*plugEnd
+	// connect in order: the accept loop takes connections in the order they completed
+	for _, pi := range in.Plugins {
+		c, err := stdnet.Dial("unix", sock)
+		if err != nil {
+			obs.Done = "harness: dial: " + err.Error()
+			break
+		}
+		e := newPlugEnd(pi, c, regTo, reqTo, quit)
+		if len(ends) > 0 {
+			e.start = ends[len(ends)-1].released
+		}
+		ends = append(ends, e)
+	}
+	for _, e := range ends {
+		go e.run()
+	}
+	// every handshake ends within registration timeout + 2 × request timeout of its turn; allow
+	// that for each connection, plus the late plugins' own sleeps, plus a generous margin
+	deadline := time.Duration(len(ends))*(regTo+2*reqTo) + 5*(regTo+reqTo) + 10*time.Second
+	timer := time.After(deadline)
+	for _, e := range ends {
+		select {
+		case <-e.term:
+		case <-timer:
+			obs.Done = "blocked"
+		}
+		if obs.Done == "blocked" {
+			break
+		}
+	}
+	if obs.Done == "ok" {
+		// a synchronised plugin is appended to the plugin list before the sync lock is released
+		b := r.BlockPluginSync()
+		b.Unblock()
+		ctx, cancel := context.WithTimeout(context.Background(), 30*time.Second)
+		pod := &api.PodSandbox{Id: "pod1", Name: "pod1", Namespace: "ns"}
+		ctr := &api.Container{Id: "ctr1", PodSandboxId: "pod1", Name: "ctr1"}
+		evt := func() *api.StateChangeEvent { return &api.StateChangeEvent{Pod: pod, Container: ctr} }
+		note := func(what string, err error) {
+			if err != nil {
+				obs.RelayErr = append(obs.RelayErr, what+": "+err.Error())
+			}
+		}
+		note("RunPodSandbox", r.RunPodSandbox(ctx, evt()))
+		_, err := r.UpdatePodSandbox(ctx, &api.UpdatePodSandboxRequest{Pod: pod, OverheadLinuxResources: &api.LinuxResources{}, LinuxResources: &api.LinuxResources{}})
+		note("UpdatePodSandbox", err)
+		note("PostUpdatePodSandbox", r.PostUpdatePodSandbox(ctx, evt()))
+		_, err = r.CreateContainer(ctx, &api.CreateContainerRequest{Pod: pod, Container: ctr})
+		note("CreateContainer", err)
+		note("PostCreateContainer", r.PostCreateContainer(ctx, evt()))
+		note("StartContainer", r.StartContainer(ctx, evt()))
+		note("PostStartContainer", r.PostStartContainer(ctx, evt()))
+		_, err = r.UpdateContainer(ctx, &api.UpdateContainerRequest{Pod: pod, Container: ctr, LinuxResources: &api.LinuxResources{}})
+		note("UpdateContainer", err)
+		note("PostUpdateContainer", r.PostUpdateContainer(ctx, evt()))
+		_, err = r.StopContainer(ctx, &api.StopContainerRequest{Pod: pod, Container: ctr})
+		note("StopContainer", err)
+		note("RemoveContainer", r.RemoveContainer(ctx, evt()))
+		note("StopPodSandbox", r.StopPodSandbox(ctx, evt()))
+		note("RemovePodSandbox", r.RemovePodSandbox(ctx, evt()))
+		cancel()
+		time.Sleep(30 * time.Millisecond) // let close notifications of rejected plugins arrive
+	}
+	for _, e := range ends {
+		obs.Plugins = append(obs.Plugins, e.snapshot())
+	}
+	maxLag := lag.finish()
+	obs.MaxLagMs = maxLag.Milliseconds()
+	lim := regTo
+	if reqTo < lim {
+		lim = reqTo
+	}
+	obs.Slow = maxLag > lim/5
+	close(quit)
+	r.Stop()
+	for _, e := range ends {
+		e.shutdown()
+	}
+	obs.WallMs = time.Since(t0).Milliseconds()
+	os.RemoveAll(dir)
+	return
+}
+
+// ---------------------------------------------------------------- dir
+
+func mode12(fi os.FileInfo) int64 {
+	m := int64(fi.Mode().Perm())
+	if fi.Mode()&os.ModeSetuid != 0 {
+		m |= 0o4000
+	}
+	if fi.Mode()&os.ModeSetgid != 0 {
+		m |= 0o2000
+	}
+	if fi.Mode()&os.ModeSticky != 0 {
+		m |= 0o1000
+	}
+	return m
+}
+
+func runDir(in DirIn, scratch string) (obs DirObs) {
+	obs = DirObs{Modes: []*int64{}, Euid: os.Geteuid(), Connect: "none"}
+	base := filepath.Join(scratch, "d")
+	if err := os.MkdirAll(base, 0o755); err != nil {
+		obs.Start, obs.Msg = "error", "harness:"+err.Error()
+		return
+	}
+	path := base
+	var comps []string
+	names := []string{"a", "b", "c", "d", "e"}
+	n := 0
+	for _, m := range in.Existing {
+		path = filepath.Join(path, names[n])
+		n++
+		if err := os.Mkdir(path, 0o700); err != nil {
+			obs.Start, obs.Msg = "error", "harness:"+err.Error()
+			return
+		}
+		// chmod: independent of the harness's own umask, and able to set the special bits
+		fm := os.FileMode(m & 0o777)
+		if m&0o4000 != 0 {
+			fm |= os.ModeSetuid
+		}
+		if m&0o2000 != 0 {
+			fm |= os.ModeSetgid
+		}
+		if m&0o1000 != 0 {
+			fm |= os.ModeSticky
+		}
+		if err := os.Chmod(path, fm); err != nil {
+			obs.Start, obs.Msg = "error", "harness:"+err.Error()
+			return
+		}
+		comps = append(comps, path)
+	}
+	for i := 0; i < in.Missing; i++ {
+		path = filepath.Join(path, names[n])
+		n++
+		comps = append(comps, path)
+	}
+	sock := filepath.Join(path, "n.sock")
+	opts := []adaptation.Option{adaptation.WithSocketPath(sock),
+		adaptation.WithPluginPath(filepath.Join(base, "no-plugins")),
+		adaptation.WithPluginConfigPath(filepath.Join(base, "no-conf"))}
+	if in.Disabled {
+		opts = append(opts, adaptation.WithDisabledExternalConnections())
+	}
+	r, err := adaptation.New("verif", "0.0", syncFn, updateFn, opts...)
+	if err != nil {
+		obs.Start, obs.Msg = "error", "harness:"+err.Error()
+		return
+	}
+	old := syscall.Umask(int(in.Umask))
+	err = r.Start()
+	syscall.Umask(old)
+	if err != nil {
+		obs.Start, obs.Msg = "error", err.Error()
+	} else {
+		obs.Start = "ok"
+	}
+	for _, c := range comps {
+		fi, err := os.Lstat(c)
+		if err != nil {
+			obs.Modes = append(obs.Modes, nil)
+			continue
+		}
+		m := mode12(fi)
+		obs.Modes = append(obs.Modes, &m)
+	}
+	if _, err := os.Lstat(sock); err == nil {
+		obs.Socket = true
+	}
+	c, err := stdnet.DialTimeout("unix", sock, 2*time.Second)
+	switch {
+	case err == nil:
+		obs.Connect = "ok"
+		c.Close()
+	case os.IsNotExist(err) || strings.Contains(err.Error(), "no such file"):
+		obs.Connect = "nofile"
+	case strings.Contains(err.Error(), "refused"):
+		obs.Connect = "refused"
+	default:
+		obs.Connect = "error"
+	}
+	r.Stop()
+	return
+}
+
+// ---------------------------------------------------------------- workers
+
+type job struct {
+	ID string
+	In json.RawMessage
+}
+
+func writeJobs(path string, jobs []job) error {
+	f, err := os.Create(path)
+	if err != nil {
+		return err
+	}
+	w := bufio.NewWriter(f)
+	enc := json.NewEncoder(w)
+	for _, j := range jobs {
+		if err := enc.Encode(map[string]interface{}{"id": j.ID, "in": j.In}); err != nil {
+			return err
+		}
+	}
+	if err := w.Flush(); err != nil {
+		return err
+	}
+	return f.Close()
+}
+
+// spawn re-executes this binary as a worker and returns the case lines it wrote.
+func spawn(kind string, jobs []job, dir string, timeout time.Duration) ([]lineio.Case, error) {
+	if err := os.MkdirAll(dir, 0o755); err != nil {
+		return nil, err
+	}
+	jf := filepath.Join(dir, "jobs.jsonl")
+	if err := writeJobs(jf, jobs); err != nil {
+		return nil, err
+	}
+	ctx, cancel := context.WithTimeout(context.Background(), timeout)
+	defer cancel()
+	cmd := exec.CommandContext(ctx, os.Args[0], "C17", "-tier", "worker:"+kind, "-replay", jf, "-out", dir)
+	out, err := cmd.CombinedOutput()
+	var res []lineio.Case
+	if f, e := os.Open(filepath.Join(dir, "cases.jsonl")); e == nil {
+		sc := bufio.NewScanner(f)
+		sc.Buffer(make([]byte, 1<<20), 1<<28)
+		for sc.Scan() {
+			var c struct {
+				ID  string          `json:"id"`
+				In  json.RawMessage `json:"in"`
+				Obs json.RawMessage `json:"obs"`
+			}
+			if json.Unmarshal(sc.Bytes(), &c) == nil && c.ID != "" {
+				res = append(res, lineio.Case{ID: c.ID, In: c.In, Obs: c.Obs})
+			}
+		}
+		f.Close()
+	}
+	if err != nil {
+		first := strings.SplitN(strings.TrimSpace(string(out)), "\n", 2)[0]
+		return res, fmt.Errorf("worker %s: %v: %s", kind, err, first)
+	}
+	return res, nil
+}
+
+func workerChain(o *hx.Opts, w *lineio.Writer) error {
+	logrus.SetOutput(io.Discard)
+	logrus.SetLevel(logrus.PanicLevel)
+	cases, err := hx.ReplayCases(o.Replay)
+	if err != nil {
+		return err
+	}
+	var ins []ChainIn
+	for _, c := range cases {
+		var in ChainIn
+		if err := json.Unmarshal(c.In, &in); err != nil {
+			return err
+		}
+		ins = append(ins, in)
+	}
+	if len(ins) == 0 {
+		return nil
+	}
+	for _, in := range ins {
+		if in.RegToMs != ins[0].RegToMs || in.ReqToMs != ins[0].ReqToMs {
+			return fmt.Errorf("one worker, one pair of timeouts")
+		}
+	}
+	adaptation.SetPluginRegistrationTimeout(time.Duration(ins[0].RegToMs) * time.Millisecond)
+	adaptation.SetPluginRequestTimeout(time.Duration(ins[0].ReqToMs) * time.Millisecond)
+	par := 8
+	sem := make(chan struct{}, par)
+	var wg sync.WaitGroup
+	for i := range ins {
+		wg.Add(1)
+		sem <- struct{}{}
+		go func(i int) {
+			defer wg.Done()
+			defer func() { <-sem }()
+			var obs ChainObs
+			// a run during which the machine stalled the process is repeated (twice at most)
+			for try := 0; try < 3; try++ {
+				obs = runChain(ins[i], o.Scratch)
+				if !obs.Slow {
+					break
+				}
+			}
+			w.Put(&lineio.Case{ID: cases[i].ID, In: ins[i], Obs: obs})
+		}(i)
+	}
+	wg.Wait()
+	return nil
+}
+
+func workerDir(o *hx.Opts, w *lineio.Writer) error {
+	logrus.SetOutput(io.Discard)
+	logrus.SetLevel(logrus.PanicLevel)
+	cases, err := hx.ReplayCases(o.Replay)
+	if err != nil {
+		return err
+	}
+	for _, c := range cases {
+		var in DirIn
+		if err := json.Unmarshal(c.In, &in); err != nil {
+			return err
+		}
+		w.Put(&lineio.Case{ID: c.ID, In: in, Obs: runDir(in, filepath.Join(o.Scratch, c.ID))})
+	}
+	return nil
+}
+
+// ---------------------------------------------------------------- generators
+
+var idxShapes = []string{
+	"", "0", "7", "00", "07", "42", "99", "10", "000", "007", "123", "1234", "-1", "+1", "1-", "1 ", " 1", "1a", "a1",
+	"ab", "0x", "٣٤", "٣", "１２", "1１", "é", "éé", "½", "①②", "0\x00", "\t1", "1\n", "1.", ".5", "1e", "०१", "00 ",
+	"٠٠", "𝟙𝟚", "߁߂", "  ", "--", "९९", "9９",
+}
+
+func randIdx(r *rand.Rand) string {
+	switch r.Intn(5) {
+	case 0:
+		return idxShapes[r.Intn(len(idxShapes))]
+	case 1:
+		return fmt.Sprintf("%02d", r.Intn(100))
+	case 2:
+		al := []rune("0123456789 -+ax٣１é\t")
+		n := r.Intn(4)
+		b := make([]rune, n)
+		for i := range b {
+			b[i] = al[r.Intn(len(al))]
+		}
+		return string(b)
+	case 3:
+		return string([]rune{rune(0x30 + r.Intn(12) - 1), rune(0x30 + r.Intn(12) - 1)})
+	default:
+		return string([]rune{rune(r.Intn(0x3000) + 1), rune(r.Intn(0x80) + 1)})
+	}
+}
+
+var nameShapes = []string{"p", "plugin", "", "a-b", "00-x", " ", "é☃", "-", "x y", "very-long-plugin-name-0123456789"}
+
+func goodPlug(r *rand.Rand, events uint32) PlugIn {
+	return PlugIn{Name: "good" + fmt.Sprint(r.Intn(100)), Idx: fmt.Sprintf("%02d", r.Intn(100)), Reg: "now",
+		Cfg: "answer", Events: events, Sync: "answer"}
+}
+
+func maskShapes(r *rand.Rand) []uint32 {
+	ms := []uint32{0, 0x1fff, 0x2000, 0x3fff, 0x80000000, 0xffffffff, 0x80000001, 0x1000, 0x0800, 1, 0x4000, 0x7fffffff}
+	for b := uint(0); b < 32; b++ {
+		ms = append(ms, 1<<b)
+	}
+	return ms
+}
+
+func randMask(r *rand.Rand) uint32 {
+	switch r.Intn(4) {
+	case 0:
+		return r.Uint32() & 0x1fff
+	case 1:
+		return r.Uint32()
+	case 2:
+		return (r.Uint32() & 0x1fff) | 1<<uint(13+r.Intn(19))
+	default:
+		return 1 << uint(r.Intn(32))
+	}
+}
+
+func genChains(o *hx.Opts, r *rand.Rand, regTo, reqTo int, shapeChains, stallChains int) []ChainIn {
+	var out []ChainIn
+	mk := func(ps []PlugIn) {
+		// the last plugin of every chain is a well-behaved one: it must get through
+		ps = append(ps, goodPlug(r, randMask(r)&0x1fff))
+		out = append(out, ChainIn{Kind: "chain", RegToMs: regTo, ReqToMs: reqTo, Plugins: ps})
+	}
+	// 1. name/index shapes and masks, no stalls: every index shape with a good and an empty
+	//    name; every mask shape with a good identity
+	var quick []PlugIn
+	for _, idx := range idxShapes {
+		quick = append(quick, PlugIn{Name: nameShapes[r.Intn(2)], Idx: idx, Reg: "now", Cfg: "answer", Events: randMask(r), Sync: "answer", Retry: r.Intn(3) == 0})
+	}
+	for _, nm := range nameShapes {
+		quick = append(quick, PlugIn{Name: nm, Idx: fmt.Sprintf("%02d", r.Intn(100)), Reg: "now", Cfg: "answer", Events: randMask(r), Sync: "answer", Retry: nm == ""})
+		quick = append(quick, PlugIn{Name: nm, Idx: randIdx(r), Reg: "now", Cfg: "answer", Events: randMask(r), Sync: "answer"})
+	}
+	for _, m := range maskShapes(r) {
+		quick = append(quick, PlugIn{Name: "m", Idx: fmt.Sprintf("%02d", r.Intn(100)), Reg: "now", Cfg: "answer", Events: m, Sync: "answer"})
+	}
+	for i := 0; i < shapeChains*12; i++ {
+		quick = append(quick, PlugIn{Name: nameShapes[r.Intn(len(nameShapes))], Idx: randIdx(r), Reg: "now", Cfg: "answer", Events: randMask(r), Sync: "answer", Retry: r.Intn(6) == 0})
+	}
+	// plugins built on the repository's own stub (all handlers), asking for every kind of mask
+	for i := 0; i < 6+shapeChains; i++ {
+		quick = append(quick, PlugIn{Name: "stub" + fmt.Sprint(i), Idx: fmt.Sprintf("%02d", r.Intn(100)), Reg: "stub", Cfg: "answer", Events: randMask(r), Sync: "answer"})
+	}
+	quick = append(quick, PlugIn{Name: "stub0", Idx: "00", Reg: "stub", Cfg: "answer", Events: 0, Sync: "answer"})
+	r.Shuffle(len(quick), func(i, j int) { quick[i], quick[j] = quick[j], quick[i] })
+	for len(quick) > 0 {
+		n := 12
+		if n > len(quick) {
+			n = len(quick)
+		}
+		mk(append([]PlugIn{}, quick[:n]...))
+		quick = quick[n:]
+	}
+	// 2. every stall point on its own, each ahead of a good plugin
+	stalls := []PlugIn{
+		{Name: "s", Idx: "10", Reg: "never", Cfg: "answer", Sync: "answer"},
+		{Name: "s", Idx: "10", Reg: "late", Cfg: "answer", Sync: "answer"},
+		{Name: "s", Idx: "10", Reg: "short", Cfg: "answer", Events: 0x11, Sync: "answer"},
+		{Name: "s", Idx: "10", Reg: "now", Close: "early", Cfg: "answer", Sync: "answer"},
+		{Name: "s", Idx: "10", Reg: "now", Cfg: "never", Events: 0x1fff, Sync: "answer"},
+		{Name: "s", Idx: "10", Reg: "now", Cfg: "late", Events: 0x1fff, Sync: "answer"},
+		{Name: "s", Idx: "10", Reg: "now", Cfg: "short", Events: 0x101, Sync: "answer"},
+		{Name: "s", Idx: "10", Reg: "now", Cfg: "error", Events: 0x1fff, Sync: "answer"},
+		{Name: "s", Idx: "10", Reg: "now", Cfg: "answer", Events: 0x1fff, Sync: "never"},
+		{Name: "s", Idx: "10", Reg: "now", Cfg: "answer", Events: 0x1fff, Sync: "late"},
+		{Name: "s", Idx: "10", Reg: "now", Cfg: "answer", Events: 0x1fff, Sync: "error"},
+		{Name: "s", Idx: "10", Reg: "now", Cfg: "answer", Events: 0x1001, Sync: "short"},
+		{Name: "s", Idx: "10", Reg: "short", Cfg: "short", Events: 0, Sync: "short"},
+		{Name: "", Idx: "10", Reg: "short", Cfg: "answer", Events: 0, Sync: "answer", Retry: true},
+		{Name: "s", Idx: "1", Reg: "late", Cfg: "answer", Events: 0, Sync: "answer"},
+		{Name: "s", Idx: "10", Reg: "now", Cfg: "never", Events: 0x2000, Sync: "answer"},
+	}
+	for _, s := range stalls {
+		mk([]PlugIn{s})
+	}
+	// 2b. turn-taking: every way a connection can end × a successor whose registration is
+	//     scripted relative to the moment the runtime turns to it (early enough / too late)
+	preds := []PlugIn{
+		goodPlug(r, 0x1fff),
+		{Name: "", Idx: "10", Reg: "now", Cfg: "answer", Sync: "answer"},
+		{Name: "s", Idx: "10", Reg: "never", Cfg: "answer", Sync: "answer"},
+		{Name: "s", Idx: "10", Reg: "now", Close: "early", Cfg: "answer", Sync: "answer"},
+		{Name: "s", Idx: "10", Reg: "now", Cfg: "never", Sync: "answer"},
+		{Name: "s", Idx: "10", Reg: "now", Cfg: "late", Sync: "answer"},
+		{Name: "s", Idx: "10", Reg: "now", Cfg: "answer", Events: 0x4000, Sync: "answer"},
+		{Name: "s", Idx: "10", Reg: "now", Cfg: "answer", Events: 1, Sync: "never"},
+		{Name: "s", Idx: "10", Reg: "late", Cfg: "answer", Sync: "answer"},
+	}
+	for _, pd := range preds {
+		for _, when := range []string{"short", "late"} {
+			mk([]PlugIn{pd, {Name: "t", Idx: "20", Reg: when, Cfg: "answer", Events: randMask(r) & 0x1fff, Sync: "answer"}})
+		}
+	}
+	// 3. several bad plugins of random kinds ahead of a good one, good ones in between
+	for i := 0; i < stallChains; i++ {
+		n := 2 + r.Intn(3)
+		if o.Thorough() {
+			n = 2 + r.Intn(7)
+		}
+		var ps []PlugIn
+		for j := 0; j < n; j++ {
+			switch r.Intn(6) {
+			case 0:
+				ps = append(ps, goodPlug(r, randMask(r)&0x1fff))
+			case 1:
+				ps = append(ps, PlugIn{Name: nameShapes[r.Intn(len(nameShapes))], Idx: randIdx(r), Reg: "now", Cfg: "answer", Events: randMask(r), Sync: "answer", Retry: r.Intn(2) == 0})
+			default:
+				s := stalls[r.Intn(len(stalls))]
+				s.Events = randMask(r)
+				ps = append(ps, s)
+			}
+		}
+		mk(ps)
+	}
+	return out
+}
+
+func genDirs(r *rand.Rand, thorough bool) []DirIn {
+	var out []DirIn
+	umasks := []uint32{0o000, 0o002, 0o022, 0o027, 0o077, 0o777, 0o007, 0o070, 0o700, 0o277, 0o133}
+	for _, u := range umasks {
+		out = append(out, DirIn{Kind: "dir", Umask: u, Existing: []uint32{}, Missing: 1 + r.Intn(3)})
+	}
+	// part of the path exists already, with modes NRI must leave alone
+	for _, m := range []uint32{0o755, 0o777, 0o700, 0o750, 0o1777, 0o2775} {
+		out = append(out, DirIn{Kind: "dir", Umask: umasks[r.Intn(5)], Existing: []uint32{m}, Missing: r.Intn(3)})
+		out = append(out, DirIn{Kind: "dir", Umask: 0o022, Existing: []uint32{0o755, m}, Missing: 0})
+	}
+	// listening disabled: nothing appears
+	for _, u := range []uint32{0o022, 0o000} {
+		out = append(out, DirIn{Kind: "dir", Umask: u, Existing: []uint32{}, Missing: 2, Disabled: true})
+		out = append(out, DirIn{Kind: "dir", Umask: u, Existing: []uint32{0o755}, Missing: 0, Disabled: true})
+	}
+	n := 6
+	if thorough {
+		n = 120
+	}
+	for i := 0; i < n; i++ {
+		d := DirIn{Kind: "dir", Umask: uint32(r.Intn(0o1000)), Existing: []uint32{}, Missing: r.Intn(4), Disabled: r.Intn(8) == 0}
+		for j := r.Intn(3); j > 0; j-- {
+			d.Existing = append(d.Existing, uint32(r.Intn(0o1000))|0o700)
+		}
+		if len(d.Existing)+d.Missing == 0 {
+			d.Missing = 1
+		}
+		out = append(out, d)
+	}
+	return out
+}
+
+// ---------------------------------------------------------------- Run
+
 func Run(o *hx.Opts, w *lineio.Writer) error {
-	return errors.New("C17 harness not implemented")
+	switch o.Tier {
+	case "worker:chain":
+		return workerChain(o, w)
+	case "worker:dir":
+		return workerDir(o, w)
+	}
+	var idxJobs []IndexIn
+	var idxIDs []string
+	chainJobs := map[[2]int][]job{}
+	var dirJobs []job
+	var order []string
+	results := map[string]lineio.Case{}
+
+	addChain := func(id string, in ChainIn) {
+		b, _ := json.Marshal(in)
+		k := [2]int{in.RegToMs, in.ReqToMs}
+		chainJobs[k] = append(chainJobs[k], job{id, b})
+		order = append(order, id)
+	}
+	addDir := func(id string, in DirIn) {
+		if in.Existing == nil {
+			in.Existing = []uint32{}
+		}
+		b, _ := json.Marshal(in)
+		dirJobs = append(dirJobs, job{id, b})
+		order = append(order, id)
+	}
+	if o.Replay != "" {
+		cases, err := hx.ReplayCases(o.Replay)
+		if err != nil {
+			return err
+		}
+		for _, c := range cases {
+			var k struct {
+				Kind string `json:"kind"`
+			}
+			if err := json.Unmarshal(c.In, &k); err != nil {
+				return err
+			}
+			switch k.Kind {
+			case "index":
+				var in IndexIn
+				if err := json.Unmarshal(c.In, &in); err != nil {
+					return err
+				}
+				idxJobs = append(idxJobs, in)
+				idxIDs = append(idxIDs, c.ID)
+				order = append(order, c.ID)
+			case "chain":
+				var in ChainIn
+				if err := json.Unmarshal(c.In, &in); err != nil {
+					return err
+				}
+				addChain(c.ID, in)
+			case "dir":
+				var in DirIn
+				if err := json.Unmarshal(c.In, &in); err != nil {
+					return err
+				}
+				addDir(c.ID, in)
+			default:
+				return fmt.Errorf("unknown case kind %q", k.Kind)
+			}
+		}
+	} else {
+		r := o.Rand(17)
+		for i, s := range idxShapes {
+			idxJobs = append(idxJobs, IndexIn{"index", s})
+			idxIDs = append(idxIDs, fmt.Sprintf("idx-shape-%d", i))
+		}
+		for a := 0x2e; a <= 0x3b; a++ { // every pair around the digit range
+			for b := 0x2e; b <= 0x3b; b++ {
+				idxJobs = append(idxJobs, IndexIn{"index", string([]rune{rune(a), rune(b)})})
+				idxIDs = append(idxIDs, fmt.Sprintf("idx-pair-%x-%x", a, b))
+			}
+		}
+		for i := 0; i < o.N(2000, 100000); i++ {
+			idxJobs = append(idxJobs, IndexIn{"index", randIdx(r)})
+			idxIDs = append(idxIDs, fmt.Sprintf("idx-rand-%d", i))
+		}
+		order = append(order, idxIDs...)
+		n := 0
+		for _, c := range genChains(o, r, 500, 500, o.N(8, 500), o.N(60, 400)) {
+			addChain(fmt.Sprintf("chain-%d", n), c)
+			n++
+		}
+		// a second pair of timeouts: short registration timeout, long request timeout
+		for _, c := range genChains(o, r, 300, 800, 0, o.N(16, 120)) {
+			addChain(fmt.Sprintf("chain-%d", n), c)
+			n++
+		}
+		if o.Thorough() {
+			// long registration timeout, short request timeout
+			for _, c := range genChains(o, r, 800, 300, 10, 120) {
+				addChain(fmt.Sprintf("chain-%d", n), c)
+				n++
+			}
+		}
+		for i, d := range genDirs(r, o.Thorough()) {
+			addDir(fmt.Sprintf("dir-%d", i), d)
+		}
+	}
+	for i, in := range idxJobs {
+		results[idxIDs[i]] = lineio.Case{ID: idxIDs[i], In: in, Obs: runIndex(in)}
+	}
+	// workers: one per timeout pair, and the directory cases one process each, a few at a time
+	var mu sync.Mutex
+	var wg sync.WaitGroup
+	var firstErr error
+	fail := func(err error) {
+		mu.Lock()
+		if firstErr == nil {
+			firstErr = err
+		}
+		mu.Unlock()
+	}
+	wn := 0
+	for k, jobs := range chainJobs {
+		wn++
+		wg.Add(1)
+		go func(k [2]int, jobs []job, wn int) {
+			defer wg.Done()
+			to := 15 * time.Minute
+			if o.Thorough() {
+				to = 40 * time.Minute
+			}
+			res, err := spawn("chain", jobs, filepath.Join(o.Scratch, fmt.Sprintf("wc%d", wn)), to)
+			mu.Lock()
+			for _, c := range res {
+				results[c.ID] = c
+			}
+			mu.Unlock()
+			if err != nil {
+				// cases without a result are observed as a dead worker
+				for _, j := range jobs {
+					mu.Lock()
+					if _, ok := results[j.ID]; !ok {
+						results[j.ID] = lineio.Case{ID: j.ID, In: j.In, Obs: ChainObs{Done: "crashed: " + err.Error(), Plugins: []PlugObs{}, RelayErr: []string{}}}
+					}
+					mu.Unlock()
+				}
+			}
+		}(k, jobs, wn)
+	}
+	sem := make(chan struct{}, 4)
+	for i, j := range dirJobs {
+		wg.Add(1)
+		sem <- struct{}{}
+		go func(i int, j job) {
+			defer wg.Done()
+			defer func() { <-sem }()
+			res, err := spawn("dir", []job{j}, filepath.Join(o.Scratch, fmt.Sprintf("wd%d", i)), 2*time.Minute)
+			if err != nil && len(res) == 0 {
+				fail(err)
+				return
+			}
+			mu.Lock()
+			for _, c := range res {
+				results[c.ID] = c
+			}
+			mu.Unlock()
+		}(i, j)
+	}
+	wg.Wait()
+	if firstErr != nil {
+		return firstErr
+	}
+	for _, id := range order {
+		c, ok := results[id]
+		if !ok {
+			return fmt.Errorf("no result for case %s", id)
+		}
+		w.Put(&c)
+	}
+	return nil
 }
